@@ -1,12 +1,38 @@
 //! C19 — regex compilation, automaton parsing and base64 decoding are exact.
+//!
+//! Part 1 (model checking): for every expression of a structurally enumerated space, the product of
+//!   the automaton compiled by the library (all 256 bytes per state) with the derivative automaton
+//!   of the checker's reference semantics is explored completely.
+//! Part 2 (conformance): words read off the product are replayed through `AutomatonChip::parse` in a
+//!   circuit configured with exactly that automaton.
+//! Part 3: shipped automata (deserialised bytes vs. compilation of the specification, round trip),
+//!   base64 / base64url decoding, fixed and variable length.
 
+mod b64;
+mod circ;
+mod kern;
 mod product;
 mod refx;
+mod specs;
 
+use std::{collections::BTreeSet, sync::Mutex};
+
+use b64::B64Case;
+use circ::{ASpec, HCircuit, Job, Outcome};
+use ff::Field;
+use midnight_circuits::parsing::{spec_library, StdLibParser};
+use midnight_proofs::{
+    dev::InstanceValue,
+    verif::{Fault, Mode},
+};
 use product::{explore, ImplAut};
-use refx::{RefAut, RefExpr};
+use kern::RefAut;
+use refx::{Marker, RefExpr};
 use serde_json::json;
-use vcore::{catch, CaseOut, Ctx, Level, Tier, Viol};
+use vcore::{catch, CaseOut, Ctx, Level, Viol};
+use vgad::OpCase;
+
+type F = midnight_curves::Fq;
 
 // ---------------------------------------------------------------------------------------------
 // the expression space
@@ -150,32 +176,80 @@ fn blame(e: &RefExpr) -> RefExpr {
     e.clone()
 }
 
+fn lang_class(e: &RefExpr) -> &'static str {
+    if !e.well_formed() {
+        return "_";
+    }
+    match RefAut::build(e) {
+        Ok(r) => r.language_class(),
+        Err(_) => "_",
+    }
+}
+
+/// Input class of the blamed expression (part of the finding key). The compilation defects found so
+/// far all need a degenerate operand, so the class says whether somewhere in the blamed expression
+/// a complement (`neg`, right operand of `minus`) is applied to an operand whose language is empty or
+/// exactly {epsilon}, or whether any other combinator has such an operand; otherwise the class is
+/// the top combinator of the blamed expression.
+fn input_class(b: &RefExpr) -> String {
+    fn scan(e: &RefExpr, compl: &mut BTreeSet<&'static str>, oper: &mut BTreeSet<&'static str>) {
+        for (j, c) in e.children().iter().enumerate() {
+            let cl = lang_class(c);
+            if cl != "_" {
+                let complemented = matches!(e, RefExpr::Neg(_)) || (matches!(e, RefExpr::Minus(..)) && j == 1);
+                if complemented {
+                    compl.insert(cl);
+                } else {
+                    oper.insert(cl);
+                }
+            }
+            scan(c, compl, oper);
+        }
+    }
+    let (mut compl, mut oper) = (BTreeSet::new(), BTreeSet::new());
+    scan(b, &mut compl, &mut oper);
+    if compl.contains("0") {
+        "complement-of-empty-language".into()
+    } else if compl.contains("e") {
+        "complement-of-epsilon-language".into()
+    } else if oper.contains("0") {
+        "empty-language-operand".into()
+    } else if oper.contains("e") {
+        "epsilon-language-operand".into()
+    } else if matches!(b, RefExpr::Inter(l) if l.is_empty()) {
+        "any".into()
+    } else {
+        b.top().to_string()
+    }
+}
+
 fn show_word(w: &[u8]) -> String {
     format!("{:?}", String::from_utf8_lossy(w))
 }
 
 fn account(e: &RefExpr, out: &mut CaseOut) {
     match check_expr(e) {
-        Verdict::IllFormed => out.count("ill-formed(marker under complement)", 1),
-        Verdict::RefCapped(n) => {
+        Verdict::IllFormed => out.count(if e.mark_over_complement() { "ill-formed(mark applied over a complement)" } else { "ill-formed(marker under complement)" }, 1),
+        Verdict::RefCapped(_) => {
             out.eval("reference-capped", false);
             out.counter("reference_capped", 1);
-            let _ = n;
         }
         Verdict::NonOd { impl_panicked } => {
             out.eval("skipped:not-output-deterministic", false);
             out.counter("expressions_skipped_non_output_deterministic", 1);
             out.counter(if impl_panicked { "non_od_rejected_by_library" } else { "non_od_accepted_by_library" }, 1);
-            if !impl_panicked && std::env::var("C19_DEBUG").is_ok() {
-                eprintln!("NONOD-ACCEPTED {}", e.show());
-            }
         }
         Verdict::Panic(p) => {
             out.eval("panic", true);
             let b = blame(e);
+            let p = match compile(&b) {
+                Err(p) => p,
+                Ok(_) => p,
+            };
+            let first = p.lines().next().unwrap_or("").to_string();
             out.viol(Viol::new(
-                format!("regex:{}:panic", b.top()),
-                format!("compiling the output-deterministic expression {} panics: {p}", b.show()),
+                format!("regex:{}:panic", input_class(&b)),
+                format!("compiling the output-deterministic expression {} panics: {first} [{}]", b.show(), vcore::panic_site(&p)),
                 json!({"expression": e.show(), "blamed_subexpression": b.show(), "panic": p}),
             ));
         }
@@ -195,13 +269,15 @@ fn account(e: &RefExpr, out: &mut CaseOut) {
             }
             match mismatch {
                 None => out.eval("equal", true),
-                Some(_) => {
+                Some(m0) => {
                     out.eval("mismatch", true);
                     let b = blame(e);
-                    let Verdict::Checked { mismatch: Some(m), .. } = check_expr(&b) else { unreachable!() };
-                    let top = if matches!(b, RefExpr::MarkBytes(..) | RefExpr::MarkFn(..)) && b.contains_complement() { "mark-over-neg" } else { b.top() };
+                    let m = match check_expr(&b) {
+                        Verdict::Checked { mismatch: Some(m), .. } => m,
+                        _ => m0,
+                    };
                     out.viol(Viol::new(
-                        format!("regex:{top}:{}", m.kind),
+                        format!("regex:{}:{}", input_class(&b), m.kind),
                         format!(
                             "{}: on the word {} the reference gives {} but the compiled automaton gives {}",
                             b.show(),
@@ -217,36 +293,979 @@ fn account(e: &RefExpr, out: &mut CaseOut) {
     }
 }
 
+// ---------------------------------------------------------------------------------------------
+// part 2: in-circuit conformance
+// ---------------------------------------------------------------------------------------------
+
+struct Conf {
+    e: RefExpr,
+    /// extra vectors: (word, Some(markers) | None = rejected) from the repository's tests
+    vectors: Vec<(Vec<u8>, Option<Vec<Marker>>)>,
+    max_acc: usize,
+    max_rej: usize,
+    faults: bool,
+    extra_bytes: Vec<u8>,
+}
+
+fn fe(x: usize) -> F {
+    F::from(x as u64)
+}
+
+/// The public statement of a parsing circuit: the letters, then the markers.
+fn statement(word: &[u8], markers: &[Marker]) -> Vec<F> {
+    word.iter().map(|b| fe(*b as usize)).chain(markers.iter().map(|m| fe(*m))).collect()
+}
+
+fn run_k(c: &HCircuit, k0: u32, inst: Vec<F>, plan: Vec<(u64, Fault, Mode)>, keep: bool) -> circ::Run {
+    let mut k = k0;
+    loop {
+        let r = circ::run(c, k, inst.clone(), plan.clone(), keep);
+        if circ::is_not_enough_rows(&r.outcome) && k < k0 + 3 {
+            k += 1;
+            continue;
+        }
+        return r;
+    }
+}
+
+fn conformance(c: &Conf) -> CaseOut {
+    let mut out = CaseOut::batch();
+    let e = &c.e;
+    let Ok(r) = RefAut::build(e) else { return out };
+    if !e.well_formed() || r.non_od.is_some() {
+        out.count("skipped:outside-contract", 1);
+        return out;
+    }
+    let Ok(i) = compile(e) else {
+        out.count("skipped:compile-panics(reported by the product check)", 1);
+        return out;
+    };
+    let p = explore(&i, &r, true);
+    if p.mismatch.is_some() {
+        out.count("skipped:automaton-mismatch(reported by the product check)", 1);
+        return out;
+    }
+    let mut w = product::words_from(&p, &r, 40, &c.extra_bytes);
+    // the repository's own vectors, classified by the reference (and cross-checked with the expectation)
+    for (word, exp) in &c.vectors {
+        let got = r.run(word);
+        if got != *exp {
+            out.viol(Viol::new(
+                format!("regex:{}:repository-vector-disagrees-with-reference", e.top()),
+                format!("{}: the repository's test expects {:?} on {}, the reference semantics gives {:?}", e.show(), exp, show_word(word), got),
+                json!({"expression": e.show(), "word": word}),
+            ));
+        }
+        match got {
+            Some(m) => w.accepted.insert(0, (word.clone(), m)),
+            None => w.rejected.insert(0, word.clone()),
+        }
+    }
+    w.accepted.sort_by_key(|x| (x.0.len() > 40, c.vectors.iter().all(|v| v.0 != x.0), x.0.len(), x.0.clone()));
+    w.accepted.dedup();
+    w.rejected.sort_by_key(|x| (c.vectors.iter().all(|v| v.0 != *x), x.len(), x.clone()));
+    w.rejected.dedup();
+    if w.accepted.len() > c.max_acc {
+        out.counter("conformance_accepted_words_dropped_by_cap", (w.accepted.len() - c.max_acc) as u64);
+        // keep the shortest and the longest ones
+        let tail = w.accepted.split_off(c.max_acc / 2);
+        let keep = c.max_acc - c.max_acc / 2;
+        w.accepted.extend(tail.into_iter().rev().take(keep));
+    }
+    if w.rejected.len() > c.max_rej {
+        out.counter("conformance_rejected_words_dropped_by_cap", (w.rejected.len() - c.max_rej) as u64);
+        let step = w.rejected.len() as f64 / c.max_rej as f64;
+        w.rejected = (0..c.max_rej).map(|j| w.rejected[(j as f64 * step) as usize].clone()).collect();
+    }
+    let k0 = circ::k_for(i.n_trans + i.n_finals + 1, 64, false);
+    let detail = |word: &[u8]| json!({"expression": e.show(), "word_bytes": word, "word": show_word(word)});
+    let mut table_checked = false;
+    let mut fault_acc: Option<(Vec<u8>, Vec<Marker>)> = None;
+    let mut fault_rej: Option<(Vec<u8>, Vec<F>)> = None;
+    for (word, markers) in &w.accepted {
+        let circuit = HCircuit { spec: ASpec::Expr(e.clone()), job: Job::Parse(word.clone()) };
+        let inst: Vec<F> = statement(word, markers);
+        let mut run = run_k(&circuit, k0, inst.clone(), vec![], true);
+        out.eval(&format!("accepted-word:{}", run.outcome.name()), true);
+        out.counter("traces_validated", 1);
+        let observed: Vec<Option<F>> = run.observed.clone();
+        if !run.outcome.is_sat() {
+            out.viol(Viol::new(
+                format!("parse:{}:accepted-word-not-satisfiable", run.outcome.name()),
+                format!("{}: the accepted word {} with its reference markers {:?} is not satisfiable in-circuit ({:?}; markers computed by the chip: {:?})", e.show(), show_word(word), markers, run.outcome, observed.iter().map(|o| o.map(|x| vgad::val::hex(&x))).collect::<Vec<_>>()),
+                detail(word),
+            ));
+            continue;
+        }
+        if observed.len() != markers.len() || observed.iter().zip(markers).any(|(o, m)| *o != Some(fe(*m))) {
+            out.viol(Viol::new("parse:observed-markers-differ", format!("{}: chip markers differ from the reference on {}", e.show(), show_word(word)), detail(word)));
+        }
+        // the exposed markers are bound: one edited position must be rejected
+        if let Some(prover) = run.prover.as_mut() {
+            if !word.is_empty() {
+                let pos = word.len() / 2;
+                prover.instance_mut()[1][word.len() + pos] = InstanceValue::Assigned(inst[word.len() + pos] + F::ONE);
+                let ok = catch(|| prover.verify().is_ok()).unwrap_or(false);
+                out.eval(if ok { "wrong-marker:accepted" } else { "wrong-marker:rejected" }, true);
+                if ok {
+                    out.viol(Viol::new("parse:wrong-marker-accepted", format!("{}: word {} is satisfiable with marker {} at position {pos} replaced", e.show(), show_word(word), markers[pos]), detail(word)));
+                }
+            }
+        }
+        // the lookup table laid out in the circuit is exactly the automaton (+ the dummy row and one
+        // sentinel row (f, 256, 0, 0) per final state), states shifted by 1
+        if !table_checked {
+            if let Some(prover) = run.prover.as_ref() {
+                table_checked = true;
+                let mut expect: BTreeSet<[u64; 4]> = BTreeSet::from([[0, 0, 0, 0]]);
+                for ((s, b), (t, m)) in &i.sorted_trans {
+                    expect.insert([*s as u64 + 1, *b as u64, *t as u64 + 1, *m as u64]);
+                }
+                for f in &i.sorted_finals {
+                    expect.insert([*f as u64 + 1, 256, 0, 0]);
+                }
+                match circ::automaton_table(prover) {
+                    Some(t) if t == expect => out.eval("lookup-table:equals-automaton", true),
+                    Some(t) => {
+                        out.eval("lookup-table:differs", true);
+                        let extra: Vec<_> = t.difference(&expect).take(3).collect();
+                        let missing: Vec<_> = expect.difference(&t).take(3).collect();
+                        out.viol(Viol::new(
+                            "parse:lookup-table-differs-from-automaton",
+                            format!("{}: rows only in the circuit table {extra:?}, rows missing {missing:?}", e.show()),
+                            json!({"expression": e.show()}),
+                        ));
+                    }
+                    None => out.count("lookup-table:not-readable", 1),
+                }
+            }
+        }
+        if fault_acc.is_none() && word.len() >= 2 {
+            fault_acc = Some((word.clone(), markers.clone()));
+        }
+    }
+    for word in &w.rejected {
+        let circuit = HCircuit { spec: ASpec::Expr(e.clone()), job: Job::Parse(word.clone()) };
+        let mut run = run_k(&circuit, k0, statement(word, &vec![0; word.len()]), vec![], true);
+        out.counter("traces_validated", 1);
+        let mut outcome = run.outcome.clone();
+        // if the honest prover got through synthesis, give it its own markers as the instance: the
+        // only thing left to fail is the final-state check
+        if let (Some(prover), true) = (run.prover.as_mut(), run.observed.len() == word.len()) {
+            let obs: Vec<F> = run.observed.iter().map(|o| o.unwrap_or(F::ZERO)).collect();
+            for (j, v) in obs.iter().enumerate() {
+                prover.instance_mut()[1][word.len() + j] = InstanceValue::Assigned(*v);
+            }
+            outcome = match catch(|| prover.verify()) {
+                Ok(Ok(())) => Outcome::Sat,
+                Ok(Err(_)) => Outcome::Unsat("final-state / transition lookup".into()),
+                Err(p) => Outcome::Panic(p),
+            };
+            if fault_rej.is_none() && word.len() >= 1 && !outcome.is_sat() {
+                fault_rej = Some((word.clone(), word.iter().map(|b| fe(*b as usize)).chain(obs.into_iter()).collect()));
+            }
+        }
+        out.eval(&format!("rejected-word:{}", outcome.name()), true);
+        if outcome.is_sat() {
+            out.viol(Viol::new(
+                "parse:rejected-word-satisfiable",
+                format!("{}: the word {} is not in the language but the parsing circuit is satisfiable", e.show(), show_word(word)),
+                detail(word),
+            ));
+        }
+    }
+    // 1-deviation faults (propagate mode) on false statements: must stay unsatisfiable
+    if c.faults {
+        let final_state = (0..i.finals.len()).find(|s| i.finals[*s]).map(|s| s as u64 + 1).unwrap_or(1);
+        let faults = [("+1", Fault::Add(1)), ("-1", Fault::Add(-1)), ("zero", Fault::Set([0; 4])), ("final-state", Fault::Set([final_state, 0, 0, 0]))];
+        let mut jobs: Vec<(&str, Vec<u8>, Vec<F>)> = vec![];
+        if let Some((word, markers)) = &fault_acc {
+            let mut inst: Vec<F> = statement(word, markers);
+            inst[word.len()] += F::ONE;
+            jobs.push(("wrong-marker", word.clone(), inst));
+        }
+        if let Some((word, obs)) = &fault_rej {
+            jobs.push(("non-final-end", word.clone(), obs.clone()));
+        }
+        for (what, word, inst) in jobs {
+            let circuit = HCircuit { spec: ASpec::Expr(e.clone()), job: Job::Parse(word.clone()) };
+            let base = run_k(&circuit, k0, inst.clone(), vec![], false);
+            for idx in 0..base.n_assign {
+                for (fname, f) in &faults {
+                    let run = run_k(&circuit, k0, inst.clone(), vec![(idx, f.clone(), Mode::Propagate)], false);
+                    if run.fired != Some(true) {
+                        out.count("fault:no-change", 1);
+                        continue;
+                    }
+                    out.eval(&format!("fault:{}", run.outcome.name()), true);
+                    if let Outcome::Panic(p) = &run.outcome {
+                        // a panic of the witness generator on a lie is a rejection (the witness is never produced)
+                        out.count(&format!("fault:crash@{}", vcore::panic_site(p)), 1);
+                    }
+                    if run.outcome.is_sat() {
+                        out.viol(Viol::new(
+                            format!("parse:{what}:unsound-under-1-deviation"),
+                            format!("{}: word {} ({what}) becomes satisfiable when advice assignment #{idx} is replaced by {fname}", e.show(), show_word(&word)),
+                            json!({"expression": e.show(), "word_bytes": word, "assignment_index": idx, "fault": fname}),
+                        ));
+                    }
+                }
+            }
+        }
+    }
+    out.sample = Some(json!({"expression": e.show(), "automaton_states": i.nb_states, "transitions": i.n_trans, "k": k0, "accepted_words": w.accepted.len(), "rejected_words": w.rejected.len()}));
+    out
+}
+
+// ---------------------------------------------------------------------------------------------
+// part 3a: shipped automata
+// ---------------------------------------------------------------------------------------------
+
+const JWT_BYTES: &[u8] = include_bytes!("/repo/circuits/src/parsing/automaton_cache/Jwt");
+
+fn shipped_bytes_case(out: &mut CaseOut) -> Option<ImplAut> {
+    // what the library reads from the shipped bytes
+    let lib = catch(|| {
+        let lib = spec_library();
+        let a = lib.get(&StdLibParser::Jwt).expect("Jwt entry");
+        impl_aut!(a)
+    });
+    let lib = match lib {
+        Ok(a) => a,
+        Err(p) => {
+            out.eval("shipped:deserialize-panic", true);
+            out.viol(Viol::new("shipped:Jwt:deserialize-panic", format!("spec_library() panics: {p}"), json!({})));
+            return None;
+        }
+    };
+    // round trip with the checker's own (de)serialiser of the documented format
+    let again = product::serialize(&lib);
+    let same = again == JWT_BYTES;
+    out.eval(if same { "shipped:roundtrip-equal" } else { "shipped:roundtrip-differs" }, true);
+    if !same {
+        out.viol(Viol::new("shipped:Jwt:serialization-roundtrip", "serialize(deserialize(bytes)) != bytes for the shipped Jwt automaton", json!({"len_bytes": JWT_BYTES.len(), "len_again": again.len()})));
+    }
+    match product::deserialize(JWT_BYTES) {
+        Some(own) => {
+            let same = own.sorted_trans == lib.sorted_trans && own.sorted_finals == lib.sorted_finals && own.nb_states == lib.nb_states && own.initial == lib.initial;
+            out.eval(if same { "shipped:own-reader-agrees" } else { "shipped:own-reader-differs" }, true);
+            if !same {
+                out.viol(Viol::new("shipped:Jwt:deserialize-differs", "the library's reading of the shipped bytes differs from the checker's reading of the same format", json!({})));
+            }
+        }
+        None => {
+            out.eval("shipped:own-reader-fails", true);
+            out.viol(Viol::new("shipped:Jwt:format", "the shipped bytes are not a well-formed serialisation", json!({})));
+        }
+    }
+    if lib.out_of_range {
+        out.viol(Viol::new("shipped:Jwt:state-out-of-range", "the shipped automaton uses a state >= nb_states", json!({})));
+    }
+    out.counter("shipped_automaton_states", lib.nb_states as u64);
+    out.counter("shipped_automaton_transitions", lib.n_trans as u64);
+    Some(lib)
+}
+
+// ---------------------------------------------------------------------------------------------
+// part 3b: base64
+// ---------------------------------------------------------------------------------------------
+
+fn b64_cases(seed: u64, thorough: bool) -> Vec<B64Case> {
+    let mut v: Vec<B64Case> = vec![];
+    let mut seen: BTreeSet<(bool, bool, Vec<u8>)> = BTreeSet::new();
+    let mut push = |v: &mut Vec<B64Case>, url: bool, padded: bool, input: Vec<u8>| {
+        if seen.insert((url, padded, input.clone())) {
+            v.push(B64Case { url, padded, input });
+        }
+    };
+    for url in [false, true] {
+        let alpha = b64::alphabet(url);
+        for n in 0..=64usize {
+            for kind in 0..4 {
+                // ---- unpadded mode: every length
+                let p = match n % 4 {
+                    0 => Some(n / 4 * 3),
+                    2 => Some(n / 4 * 3 + 1),
+                    3 => Some(n / 4 * 3 + 2),
+                    _ => None,
+                };
+                match p {
+                    Some(p) => {
+                        let enc = b64::encode(&b64::payload(kind, p, seed), url, false);
+                        assert_eq!(enc.len(), n);
+                        push(&mut v, url, false, enc.clone());
+                        // non-canonical trailing bits
+                        if n % 4 != 0 {
+                            let mut x = enc.clone();
+                            let last = alpha.iter().position(|c| *c == x[n - 1]).unwrap();
+                            x[n - 1] = alpha[last | 1];
+                            push(&mut v, url, false, x);
+                        }
+                    }
+                    None => {
+                        // impossible length: a valid string plus one character
+                        let mut enc = b64::encode(&b64::payload(kind, n / 4 * 3, seed), url, false);
+                        enc.push(alpha[(kind * 21) % 64]);
+                        push(&mut v, url, false, enc);
+                    }
+                }
+                // ---- padded mode
+                if n % 4 == 0 {
+                    let pmax = n / 4 * 3;
+                    for pads in 0..=2usize {
+                        if pmax < pads || (n == 0 && pads > 0) {
+                            continue;
+                        }
+                        let enc = b64::encode(&b64::payload(kind, pmax - pads, seed), url, true);
+                        assert_eq!(enc.len(), n);
+                        push(&mut v, url, true, enc.clone());
+                        // the same string given to the unpadded instruction (must be rejected if it has '=')
+                        if kind == 2 {
+                            push(&mut v, url, false, enc.clone());
+                        }
+                        if pads > 0 {
+                            // non-canonical trailing bits
+                            let mut x = enc.clone();
+                            let j = n - pads - 1;
+                            let last = alpha.iter().position(|c| *c == x[j]).unwrap();
+                            x[j] = alpha[last | 1];
+                            push(&mut v, url, true, x);
+                        }
+                        if (kind == 2 || (thorough && kind == 3)) && n >= 4 {
+                            // misplaced '='
+                            for pos in [n - 2, n - 3, n - 4, 0, n / 2] {
+                                let mut x = enc.clone();
+                                if x[pos] != b'=' || pos == n - 2 {
+                                    x[pos] = b'=';
+                                    if pos == n - 2 {
+                                        x[n - 1] = alpha[0]; // "=A"
+                                    }
+                                    push(&mut v, url, true, x);
+                                }
+                            }
+                            let mut x = enc.clone();
+                            x[n - 3..].copy_from_slice(b"===");
+                            push(&mut v, url, true, x);
+                            let mut x = enc.clone();
+                            x[n - 4..].copy_from_slice(b"====");
+                            push(&mut v, url, true, x);
+                        }
+                    }
+                } else if kind == 2 && (n < 12 || thorough) {
+                    // outside the documented domain of the padded instruction (documented panic)
+                    let enc: Vec<u8> = (0..n).map(|i| alpha[(i * 5 + 1) % 64]).collect();
+                    push(&mut v, url, true, enc);
+                }
+            }
+        }
+        // ---- every single-character corruption of 6 valid inputs (3 padding forms x 2 modes)
+        let corruptors: Vec<u8> = if url { vec![b'=', b'+', b'/', 0x00, 0x80, b' '] } else { vec![b'=', b'-', b'_', 0x00, 0x80, b' '] };
+        for (padded, p) in [(true, 9usize), (true, 8), (true, 7), (false, 9), (false, 8), (false, 7)] {
+            let enc = b64::encode(&b64::payload(3, p, seed ^ 0x5eed), url, padded);
+            for pos in 0..enc.len() {
+                for c in &corruptors {
+                    if enc[pos] != *c {
+                        let mut x = enc.clone();
+                        x[pos] = *c;
+                        push(&mut v, url, padded, x);
+                    }
+                }
+            }
+        }
+    }
+    v
+}
+
+struct VarCase {
+    input: Vec<u8>,
+    url: bool,
+    filler: Option<u8>,
+    /// false: do not constrain the output (used for malformed inputs: the decode itself must be unsatisfiable)
+    assert_output: bool,
+}
+
+fn var_cases(seed: u64, thorough: bool) -> Vec<(String, VarCase)> {
+    let mut v = vec![];
+    let mut seen = BTreeSet::new();
+    let fillers: Vec<Option<u8>> = if thorough { vec![None, Some(0x00u8), Some(b'A'), Some(b'='), Some(0xff)] } else { vec![None, Some(0x00u8), Some(b'=')] };
+    for url in [false, true] {
+        let alpha = b64::alphabet(url);
+        for len in 0..=32usize {
+            for filler in fillers.clone() {
+                let mut inputs: Vec<Vec<u8>> = vec![];
+                if len % 4 == 0 {
+                    for pads in 0..=2usize {
+                        if len == 0 && pads > 0 {
+                            continue;
+                        }
+                        for kind in [2usize, 3] {
+                            inputs.push(b64::encode(&b64::payload(kind, len / 4 * 3 - pads, seed), url, true));
+                        }
+                    }
+                    if len >= 4 {
+                        // malformed: foreign character, misplaced '=', non-canonical bits
+                        let good = b64::encode(&b64::payload(3, len / 4 * 3 - 1, seed), url, true);
+                        for (pos, c) in [(0usize, b' '), (len - 1, 0x80u8), (len / 2, if url { b'+' } else { b'-' }), (len - 4, b'=')] {
+                            let mut x = good.clone();
+                            x[pos] = c;
+                            inputs.push(x);
+                        }
+                        let mut x = good.clone();
+                        let last = alpha.iter().position(|c| *c == x[len - 2]).unwrap();
+                        x[len - 2] = alpha[last | 1];
+                        inputs.push(x);
+                    }
+                } else {
+                    // actual length not a multiple of 4
+                    inputs.push((0..len).map(|i| alpha[(i * 7 + 3) % 64]).collect());
+                }
+                for input in inputs {
+                    let wf = b64::ref_decode(&input, url, true).is_ok();
+                    let key = format!("{}:filler={}:{}", if url { "url" } else { "std" }, filler.map(|f| format!("{f:02x}")).unwrap_or("assign_var_base64".into()), vcore::hex(&input));
+                    if seen.insert(key.clone()) {
+                        v.push((key, VarCase { input, url, filler, assert_output: wf }));
+                    }
+                }
+            }
+        }
+    }
+    v
+}
+
 fn main() {
     let mut cx = Ctx::from_args("C19", Level::ModelChecking);
     cx.worker_rayon_threads = Some(1);
     let tier = cx.tier;
+    let seed = cx.seed;
+    let thorough = tier.is_thorough();
+    cx.set_rule(
+        "part 1: every RefExpr of depth <= 2 over the atoms (quick: a, [ab], a@1; thorough: + b, any-byte, eps, b@2) and the \
+         combinators neg, list, non_empty_list, optional, repeat(2), repeat_at_most(2), mark_bytes, cat, union, inter, minus, \
+         separated_list, separated_non_empty_list (thorough: + depth 3 = combinators over depth-2 expressions and atoms, 2 atoms), \
+         plus a fixed list with every other public combinator and the repository's test expressions; per expression the product of \
+         the compiled automaton (all 256 bytes per state) with the reference derivative automaton is explored completely \
+         (invariant: final <=> nullable, live successor <=> live successor, equal markers). Expressions with a marker under a \
+         complement or that are not output-deterministic are outside the contract, skipped and counted. part 2: words read off \
+         the product (shortest word into every product state, extended to the shortest accepted word; words leaving the live \
+         region; non-final prefixes; every single-byte substitution by a class representative; one letter more / less) replayed \
+         through AutomatonChip::parse configured with that automaton, plus 1-deviation faults on false statements. part 3: shipped \
+         Jwt automaton = compilation of its (transcribed) specification up to state renaming, serialisation round trip; base64 / \
+         base64url fixed-length decoding for every length 0..=64, every padding form, 4 contents, every single-character \
+         corruption of 6 valid inputs, variable-length decoding for every actual length 0..=32 x filler. A case is one batch of \
+         expressions / one expression / one base64 input; evaluations count product explorations and MockProver verdicts.",
+    );
+    cx.assume("MockProver is the satisfiability oracle (its agreement with the real verifier is C02's subject)");
+    cx.assume("in-circuit rejection is explored for the honest prover and for <= 1 deviation from it (propagate mode)");
+    cx.assume("the Jwt specification source is private to the library: the check compares against a transcription of spec_jwt() written with the public combinators");
+    cx.assume("base64 well-formedness = RFC 4648 canonical encodings (no foreign characters, '=' only as final padding when padding is selected, zero trailing bits); the module documentation of base64_chip.rs says the chip does not enforce the padding format");
+
+    // ------------------------------------------------------------------ part 1
     let at = atoms(tier.pick(3, 7));
     let d1 = depth1(&at);
     let mut le1: Vec<RefExpr> = at.clone();
     le1.extend(d1.iter().cloned());
-    // ---- part 1: product check
     let mut cases: Vec<(String, Vec<RefExpr>)> = vec![];
     cases.push(("d0".into(), at.clone()));
     cases.push(("d1".into(), d1.clone()));
-    cases.push(("d2:unary".into(), d1.iter().flat_map(|e| UNARY.iter().map(move |op| un(*op, e))).collect()));
+    for e in &d1 {
+        cases.push((format!("d2:unary:{}", e.show()), UNARY.iter().map(|op| un(*op, e)).collect()));
+    }
     for op in BINARY {
         for l in &le1 {
             let v: Vec<RefExpr> = le1.iter().filter(|r| l.depth() == 1 || r.depth() == 1).map(|r| bin(op, l, r)).collect();
-            cases.push((format!("d2:{op:?}:{}", l.show()), v));
+            if !v.is_empty() {
+                cases.push((format!("d2:{op:?}:{}", l.show()), v));
+            }
+        }
+    }
+    for (k, e) in specs::extras() {
+        cases.push((format!("extra:{k}"), vec![e]));
+    }
+    if thorough {
+        // depth 3 over 2 atoms: every combinator over (depth-2 expression, atom) in both orders
+        let at2 = vec![RefExpr::byte(b'a'), RefExpr::marked(b'a', 1)];
+        let d1b = depth1(&at2);
+        let mut le1b = at2.clone();
+        le1b.extend(d1b.iter().cloned());
+        let mut d2b: Vec<RefExpr> = vec![];
+        for e in &d1b {
+            for op in UNARY {
+                d2b.push(un(op, e));
+            }
+        }
+        for op in BINARY {
+            for l in &le1b {
+                for r in &le1b {
+                    if l.depth() == 1 || r.depth() == 1 {
+                        d2b.push(bin(op, l, r));
+                    }
+                }
+            }
+        }
+        let d2b: Vec<RefExpr> = d2b.into_iter().filter(|e| e.well_formed()).collect();
+        for (j, chunk) in d2b.chunks(8).enumerate() {
+            let mut v = vec![];
+            for e in chunk {
+                for op in UNARY {
+                    v.push(un(op, e));
+                }
+                for op in BINARY {
+                    for a in &at2 {
+                        v.push(bin(op, e, a));
+                        v.push(bin(op, a, e));
+                    }
+                }
+            }
+            cases.push((format!("d3:{j}:{}", chunk[0].show()), v));
         }
     }
     let total: usize = cases.iter().map(|c| c.1.len()).sum();
-    eprintln!("expressions: {total}");
-    cx.run_cases("product", &cases, |batch| {
+    cx.extra("expressions_enumerated", json!(total));
+    let only = std::env::var("C19_ONLY").ok();
+    let want = |g: &str| only.as_ref().map(|o| o.split(',').any(|x| x == g)).unwrap_or(true);
+    let no_cases: Vec<(String, Vec<RefExpr>)> = vec![];
+    cx.run_cases("product", if want("product") { &cases } else { &no_cases }, |batch| {
         let mut out = CaseOut::batch();
         for e in batch {
             account(e, &mut out);
         }
+        out.sample = Some(json!({"expressions_in_batch": batch.len(), "first": batch.first().map(|e| e.show()), "last": batch.last().map(|e| e.show())}));
         out
     });
+
+    // ------------------------------------------------------------------ markers put under a complement by a later `mark`
+    // `neg` is documented to fail when a marker is under a negation; a `mark*` applied afterwards puts one there
+    {
+        let a = || RefExpr::byte(b'a');
+        let ab = || RefExpr::Bytes(vec![b'a', b'b']);
+        let mut mc: Vec<(String, RefExpr)> = vec![
+            RefExpr::MarkBytes(Box::new(RefExpr::Neg(Box::new(a()))), vec![b'a'], 2),
+            RefExpr::MarkBytes(Box::new(RefExpr::Neg(Box::new(ab()))), vec![b'a'], 2),
+            RefExpr::MarkBytes(Box::new(RefExpr::Minus(Box::new(RefExpr::Star(Box::new(ab()))), Box::new(a()))), vec![b'a'], 2),
+            RefExpr::MarkFn(Box::new(RefExpr::Neg(Box::new(a()))), vec![(b'a', 3)]),
+            RefExpr::ReplaceMarkers(Box::new(RefExpr::Neg(Box::new(a()))), vec![(0, 1)]),
+        ]
+        .into_iter()
+        .map(|e| (e.show(), e))
+        .collect();
+        if !want("product") {
+            mc.clear();
+        }
+        cx.run_cases("mark-over-complement", &mc, |e| {
+            let mut out = CaseOut::batch();
+            let built = catch(|| e.to_regex());
+            match built {
+                Err(_) => out.eval("refused(documented)", true),
+                Ok(r) => {
+                    out.eval("not-refused", true);
+                    // what the resulting automaton does with a few words
+                    let aut = catch(|| impl_aut!(&r.to_automaton()));
+                    let mut example = String::new();
+                    match &aut {
+                        Err(p) => example = format!("to_automaton() then panics: {}", p.lines().next().unwrap_or("")),
+                        Ok(i) => {
+                            'find: for w in [b"b".to_vec(), b"c".to_vec(), b"bb".to_vec(), b"ab".to_vec(), b"ba".to_vec(), b"a".to_vec(), b"aa".to_vec()] {
+                                if let Some(ms) = i.run(&w) {
+                                    for (pos, m) in ms.iter().enumerate() {
+                                        if *m != 0 && w[pos] != b'a' {
+                                            example = format!("the compiled automaton accepts {} with markers {ms:?}: byte {:?} is marked although only 'a' was selected", show_word(&w), w[pos] as char);
+                                            break 'find;
+                                        }
+                                    }
+                                }
+                            }
+                        }
+                    }
+                    out.viol(Viol::new(
+                        "regex:mark-over-neg:marker-under-complement-not-refused",
+                        format!("{}: the marking puts a marked letter under a complement; neg() is documented to fail in that situation, the later mark does not. {example}", e.show()),
+                        json!({"expression": e.show(), "example": example}),
+                    ));
+                }
+            }
+            out
+        });
+    }
+
+    // ------------------------------------------------------------------ self-check of the reference semantics
+    // the derivative automaton against a direct set semantics, on every marked word of length <= 3
+    {
+        let mut sc: Vec<(String, Vec<RefExpr>)> = vec![("d0-d1".into(), le1.clone())];
+        let step = tier.pick(41, 7);
+        let mut j = 0usize;
+        let mut cur: Vec<RefExpr> = vec![];
+        for (k, batch) in &cases {
+            if k.starts_with("d2:") {
+                for e in batch {
+                    j += 1;
+                    if j % step == 0 && e.well_formed() {
+                        cur.push(e.clone());
+                        if cur.len() == 64 {
+                            sc.push((format!("d2-sample-{}", sc.len()), std::mem::take(&mut cur)));
+                        }
+                    }
+                }
+            }
+        }
+        if !cur.is_empty() {
+            sc.push((format!("d2-sample-{}", sc.len()), cur));
+        }
+        if !want("selfcheck") {
+            sc.clear();
+        }
+        let bad: Mutex<Vec<String>> = Mutex::new(vec![]);
+        cx.run_cases("reference-selfcheck", &sc, |batch| {
+            let mut out = CaseOut::batch();
+            for e in batch {
+                if !e.well_formed() {
+                    continue;
+                }
+                let Ok(r) = RefAut::build(e) else { continue };
+                match r.selfcheck(&e.kernel(), 3) {
+                    (n, None) => {
+                        out.eval("agree", true);
+                        out.counter("selfcheck_marked_words", n);
+                    }
+                    (_, Some(w)) => {
+                        out.eval("DISAGREE", true);
+                        bad.lock().unwrap().push(format!("{} on {:?}", e.show(), w));
+                    }
+                }
+            }
+            out
+        });
+        let bad = bad.into_inner().unwrap();
+        if want("selfcheck") {
+            cx.require(bad.is_empty(), &format!("derivative automaton and direct set semantics disagree: {:?}", bad.iter().take(3).collect::<Vec<_>>()));
+            cx.require(cx.class_count("reference-selfcheck:agree") > 300, "the reference self-check must cover hundreds of expressions");
+        }
+    }
+
+    // ------------------------------------------------------------------ part 3a (long-running single cases first in their group)
+    let shipped: Mutex<Option<ImplAut>> = Mutex::new(None);
+    let jwt = specs::jwt_spec();
+    let shipped_cases: Vec<(String, u8)> = vec![("Jwt:bytes".into(), 0), ("Jwt:spec-compilation-vs-shipped".into(), 1), ("Jwt:reference-vs-shipped".into(), 2)];
+    cx.run_cases("shipped", &shipped_cases, |which| {
+        let mut out = CaseOut::batch();
+        match which {
+            0 => {
+                let a = shipped_bytes_case(&mut out);
+                *shipped.lock().unwrap() = a;
+            }
+            1 => {
+                let Some(lib) = catch(|| {
+                    let lib = spec_library();
+                    impl_aut!(lib.get(&StdLibParser::Jwt).unwrap())
+                })
+                .ok() else {
+                    return out;
+                };
+                match compile(&jwt) {
+                    Err(p) => {
+                        out.eval("spec:compile-panic", true);
+                        out.viol(Viol::new("shipped:Jwt:spec-compile-panic", format!("compiling the transcribed Jwt specification panics: {p}"), json!({})));
+                    }
+                    Ok(fresh) => {
+                        let (s, t, diff) = product::equivalent(&lib, &fresh);
+                        out.counter("product_states", s);
+                        out.counter("product_transitions", t);
+                        out.counter("shipped_vs_spec_product_states", s);
+                        out.eval(if diff.is_none() { "spec:equal-up-to-renaming" } else { "spec:differs" }, true);
+                        let same_bytes = product::serialize(&fresh) == JWT_BYTES;
+                        out.count(if same_bytes { "spec:fresh-serialisation-identical" } else { "spec:fresh-serialisation-differs(state numbering)" }, 1);
+                        if let Some(w) = diff {
+                            out.viol(Viol::new(
+                                "shipped:Jwt:differs-from-spec-compilation",
+                                format!("the shipped Jwt automaton and the compilation of its specification differ after the word {}", show_word(&w)),
+                                json!({"word_bytes": w, "shipped": lib.run(&w), "fresh": fresh.run(&w)}),
+                            ));
+                        }
+                    }
+                }
+            }
+            _ => {
+                // the checker's reference semantics of the transcribed spec against the shipped automaton
+                let Some(lib) = catch(|| {
+                    let lib = spec_library();
+                    impl_aut!(lib.get(&StdLibParser::Jwt).unwrap())
+                })
+                .ok() else {
+                    return out;
+                };
+                match RefAut::build(&jwt) {
+                    Err(n) => {
+                        out.eval("reference:capped", false);
+                        out.counter("reference_capped", 1);
+                        let _ = n;
+                    }
+                    Ok(r) => {
+                        out.counter("jwt_reference_states", r.n as u64);
+                        if r.non_od.is_some() {
+                            out.eval("reference:not-output-deterministic", false);
+                            return out;
+                        }
+                        let p = explore(&lib, &r, false);
+                        out.counter("product_states", p.states);
+                        out.counter("product_transitions", p.transitions);
+                        out.eval(if p.mismatch.is_none() { "reference:equal" } else { "reference:differs" }, true);
+                        if let Some(m) = p.mismatch {
+                            out.viol(Viol::new(
+                                format!("shipped:Jwt:differs-from-documented-spec:{}", m.kind),
+                                format!(
+                                    "shipped Jwt automaton vs. the documented meaning of its specification: on {} the reference gives {:?}, the automaton {:?}",
+                                    show_word(&m.word),
+                                    m.reference,
+                                    m.implementation
+                                ),
+                                json!({"word_bytes": m.word}),
+                            ));
+                        }
+                    }
+                }
+            }
+        }
+        out
+    });
+    let shipped = shipped.into_inner().unwrap();
+
+    // ------------------------------------------------------------------ part 2
+    let mut confs: Vec<(String, Conf)> = vec![];
+    let (ma, mr) = (tier.pick(10, 60), tier.pick(24, 200));
+    let xb: Vec<u8> = if thorough { vec![0x00, 0xff, b'c'] } else { vec![0xff] };
+    for e in at.iter().chain(d1.iter()) {
+        confs.push((format!("d1:{}", e.show()), Conf { e: e.clone(), vectors: vec![], max_acc: ma, max_rej: mr, faults: true, extra_bytes: xb.clone() }));
+    }
+    // depth 2 on a diagonal
+    let stride = tier.pick(97, 101);
+    let mut j = 0usize;
+    for (k, batch) in &cases {
+        if !k.starts_with("d2:") {
+            continue;
+        }
+        for e in batch {
+            j += 1;
+            if j % stride == 0 {
+                confs.push((format!("d2:{}", e.show()), Conf { e: e.clone(), vectors: vec![], max_acc: ma / 2, max_rej: mr / 2, faults: false, extra_bytes: xb.clone() }));
+            }
+        }
+    }
+    for (k, e) in specs::extras() {
+        let vectors: Vec<(Vec<u8>, Option<Vec<Marker>>)> = match k.as_str() {
+            "repo:hard0" => specs::hard_vectors(0).into_iter().map(|(s, m)| (s.as_bytes().to_vec(), m)).collect(),
+            "repo:hard1" => specs::hard_vectors(1).into_iter().map(|(s, m)| (s.as_bytes().to_vec(), m)).collect(),
+            _ => vec![],
+        };
+        let hard = k.starts_with("repo:hard");
+        if hard || k.starts_with("repo:") || thorough {
+            confs.push((format!("extra:{k}"), Conf { e, vectors, max_acc: if hard { 40 } else { ma }, max_rej: if hard { 60 } else { mr }, faults: hard, extra_bytes: xb.clone() }));
+        }
+    }
+    if !want("parse") {
+        confs.clear();
+    }
+    cx.run_cases("parse", &confs, conformance);
+
+    // the shipped Jwt automaton in-circuit: the repository's two accepted documents are too long for
+    // the 0..40 window; the minimal one and its corruptions are used in thorough only
+    if let Some(lib) = &shipped {
+        let mut words: Vec<(String, (Vec<u8>, bool))> = vec![];
+        let min = specs::MINIMAL_JWT.as_bytes().to_vec();
+        words.push(("minimal".into(), (min.clone(), true)));
+        words.push(("minimal-truncated".into(), (min[..min.len() - 1].to_vec(), false)));
+        words.push(("hello".into(), (b"hello world".to_vec(), false)));
+        words.push(("empty".into(), (vec![], false)));
+        if thorough {
+            words.push(("full".into(), (specs::FULL_INPUT_JWT.as_bytes().to_vec(), true)));
+            for pos in (0..min.len()).step_by(7) {
+                let mut x = min.clone();
+                x[pos] = if x[pos] == b'"' { b'\'' } else { b'"' };
+                let ok = lib.run(&x).is_some();
+                words.push((format!("minimal-subst-{pos}"), (x, ok)));
+            }
+        }
+        let k0 = circ::k_for(lib.n_trans + lib.n_finals + 1, 2600, false);
+        cx.run_cases("parse-shipped-Jwt", &words, |(word, expect)| {
+            let mut out = CaseOut::batch();
+            let markers = lib.run(word);
+            if markers.is_some() != *expect {
+                out.viol(Viol::new("shipped:Jwt:repository-vector", format!("shipped automaton accepts = {}, repository test expects {}", markers.is_some(), expect), json!({"word": show_word(word)})));
+            }
+            let circuit = HCircuit { spec: ASpec::Jwt, job: Job::Parse(word.clone()) };
+            let inst: Vec<F> = statement(word, &markers.clone().unwrap_or(vec![0; word.len()]));
+            let run = run_k(&circuit, k0, inst, vec![], false);
+            out.eval(&format!("{}:{}", if markers.is_some() { "accepted-word" } else { "rejected-word" }, run.outcome.name()), true);
+            out.counter("traces_validated", 1);
+            if run.outcome.is_sat() != markers.is_some() {
+                out.viol(Viol::new(
+                    if markers.is_some() { "parse:Jwt:accepted-word-not-satisfiable" } else { "parse:Jwt:rejected-word-satisfiable" },
+                    format!("shipped Jwt parser in-circuit: automaton says accepted = {}, circuit says {:?}", markers.is_some(), run.outcome),
+                    json!({"word": show_word(word)}),
+                ));
+            }
+            out
+        });
+    }
+
+    // ------------------------------------------------------------------ part 3b: base64
+    let mut bcases: Vec<(String, B64Case)> = b64_cases(seed, thorough).into_iter().map(|c| (c.key(), c)).collect();
+    if !want("base64-fixed") {
+        bcases.clear();
+    }
+    // cross-check of the reference with the base64 crate (padded mode; the crate wants canonical input)
+    let mut disagreements = vec![];
+    for (_, c) in &bcases {
+        if c.padded && c.input.len() % 4 == 0 {
+            let mine = b64::ref_decode(&c.input, c.url, true).ok();
+            let theirs = b64::crate_decode(&c.input, c.url);
+            if mine != theirs {
+                // the crate (0.13) also accepts unpadded input in a padded configuration
+                let unpadded_ok = !c.input.contains(&b'=');
+                if !(unpadded_ok && mine.is_some()) {
+                    disagreements.push(vcore::hex(&c.input));
+                }
+            }
+        }
+    }
+    cx.extra("base64_reference_vs_crate_disagreements", json!(disagreements));
+    cx.require(disagreements.is_empty(), "the explicit base64 reference must agree with the base64 crate on padded inputs");
+    let kb = {
+        let probe = B64Case { url: true, padded: true, input: vec![b'A'; 64] };
+        vgad::min_k(&probe).unwrap_or(13)
+    };
+    cx.extra("base64_k", json!(kb));
+    cx.run_cases("base64-fixed", &bcases, |c| {
+        let mut out = CaseOut::batch();
+        // the full op-circuit exploration (instance binding, exposed-value lies) on a deterministic subset
+        let small = if thorough { c.input.len() <= 8 } else { c.input.len() <= 4 && vcore::fnv(&c.key()) % 5 == 0 };
+        if small {
+            // honest run + instance binding + exposed-value lies
+            let rep = vgad::explore_honest(c, kb, &mut out);
+            out.counter("traces_validated", 1);
+            let _ = rep;
+        } else {
+            let run = vgad::run_once(c, kb, vec![], false);
+            out.eval(&format!("honest:{}", run.outcome.name()), true);
+            out.counter("traces_validated", 1);
+            let sat = run.outcome == vgad::Outcome::Sat;
+            let detail = json!({"case": c.key(), "input": String::from_utf8_lossy(&c.input)});
+            if sat {
+                if let vgad::Judgement::Wrong(w) = c.judge(&run.ins, &run.outs) {
+                    let what = if c.expect_sat() { "honest-result-wrong" } else { "out-of-domain-accepted" };
+                    out.viol(Viol::new(format!("{}:{what}", c.op()), format!("{} on {:?}: {w}", c.instr(), String::from_utf8_lossy(&c.input)), detail));
+                }
+            } else if c.expect_sat() {
+                out.viol(Viol::new(format!("{}:completeness:{}", c.op(), run.outcome.name()), format!("well-formed input {:?} is not accepted: {:?}", String::from_utf8_lossy(&c.input), run.outcome), detail));
+            }
+        }
+        out.counter(&format!("base64_class:{}", c.class()), 1);
+        out.sample = Some(json!({"case": c.key(), "input": String::from_utf8_lossy(&c.input), "class": c.class()}));
+        out
+    });
+    let mut vcases = var_cases(seed, thorough);
+    if !want("base64-var") {
+        vcases.clear();
+    }
+    cx.run_cases("base64-var", &vcases, |c| {
+        let mut out = CaseOut::batch();
+        let dec = b64::ref_decode(&c.input, c.url, true);
+        let expected = dec.clone().map(|d| b64::expected_output(&d, c.input.len())).unwrap_or_default();
+        let mk = |expected: Option<Vec<u8>>| HCircuit { spec: ASpec::None, job: Job::B64Var { input: c.input.clone(), url: c.url, filler: c.filler, expected } };
+        // first without any constraint on the output: is the decoding itself satisfiable, and what does it give?
+        let run = run_k(&mk(None), 13, vec![], vec![], false);
+        out.counter("traces_validated", 1);
+        let class = match &dec {
+            Ok(_) => "well-formed",
+            Err(c) => c,
+        };
+        out.eval(&format!("{class}:{}", run.outcome.name()), true);
+        let entry = if c.filler.is_some() { "base64_from_vec+var_decode" } else { "assign_var_base64+var_decode" };
+        let observed: Option<Vec<u8>> = run.observed.iter().map(|o| o.and_then(|x| vgad::val::as_u8(&x))).collect();
+        let detail = json!({"input": String::from_utf8_lossy(&c.input), "input_hex": vcore::hex(&c.input), "url": c.url, "filler": c.filler, "decoded_by_chip": observed, "standard_decoding": dec.clone().ok()});
+        // one input class of its own: through base64_from_vec, a payload that fits in one alignment chunk is
+        // replaced by the filler before decoding (everything decodes to zero bytes)
+        let one_chunk_zeroed = c.filler.is_some() && c.input.len() == 4 && run.outcome.is_sat() && observed == Some(vec![0, 0, 0]) && dec.clone().ok() != Some(vec![0, 0, 0]);
+        if one_chunk_zeroed {
+            out.viol(Viol::new(
+                "base64:base64_from_vec:len<=4:payload-replaced-by-filler",
+                format!("{:?} (actual length 4, capacity 32) decodes in-circuit to [0, 0, 0]; the standard decoding is {:?}", String::from_utf8_lossy(&c.input), dec),
+                detail,
+            ));
+            return out;
+        }
+        let lc = "";
+        match (&dec, run.outcome.is_sat()) {
+            (Ok(_), true) => {
+                if observed.as_ref() != Some(&expected) {
+                    out.viol(Viol::new(
+                        format!("base64:var:well-formed{lc}:honest-result-wrong"),
+                        format!("{:?} decodes in-circuit to {:?}, the standard decoding (zero-completed) is {:?}", String::from_utf8_lossy(&c.input), observed, expected),
+                        detail,
+                    ));
+                } else if c.assert_output {
+                    // the result is bound: equal to the reference => satisfiable, one byte off => not
+                    let r2 = run_k(&mk(Some(expected.clone())), 13, vec![], vec![], false);
+                    out.eval(&format!("bound-to-reference:{}", r2.outcome.name()), true);
+                    if !r2.outcome.is_sat() {
+                        out.viol(Viol::new(format!("base64:var:well-formed{lc}:completeness:{}", r2.outcome.name()), format!("asserting the standard decoding of {:?} is not satisfiable: {:?}", String::from_utf8_lossy(&c.input), r2.outcome), detail.clone()));
+                    }
+                    if !expected.is_empty() {
+                        let mut wrong = expected.clone();
+                        let j = wrong.len() / 2;
+                        wrong[j] ^= 1;
+                        let r3 = run_k(&mk(Some(wrong)), 13, vec![], vec![], false);
+                        out.eval(&format!("bound-to-wrong-result:{}", r3.outcome.name()), true);
+                        if r3.outcome.is_sat() {
+                            out.viol(Viol::new(format!("base64:var:well-formed{lc}:wrong-result-accepted"), format!("a wrong decoding of {:?} is accepted", String::from_utf8_lossy(&c.input)), detail));
+                        }
+                    }
+                }
+            }
+            (Ok(_), false) => out.viol(Viol::new(format!("base64:var:well-formed{lc}:completeness:{}", run.outcome.name()), format!("well-formed input {:?} not accepted: {:?}", String::from_utf8_lossy(&c.input), run.outcome), detail)),
+            (Err(cl), true) => out.viol(Viol::new(
+                if cl.starts_with("precondition") { format!("base64:base64_from_vec:length-not-multiple-of-4{lc}:out-of-domain-accepted") } else { format!("base64:{cl}{lc}:out-of-domain-accepted") },
+                format!("{entry}{}: malformed input ({cl}) {:?} is decoded (to {:?}); the circuit leaves the output unconstrained", if c.url { " (url-safe)" } else { "" }, String::from_utf8_lossy(&c.input), observed),
+                detail,
+            )),
+            (Err(_), false) => {}
+        }
+        out
+    });
+
+    // ------------------------------------------------------------------ totals and self-checks
+    let dead = cx.counter_value("compiled_automata_with_dead_states");
+    if dead > 0 {
+        cx.note(format!(
+            "{dead} compiled automata with a non-empty language contain a reachable state that cannot reach a final state (the doc of \
+             Regex::to_automaton promises there are none); the accepted language is unaffected, so this is counted, not reported"
+        ));
+    }
+    cx.note(
+        "mark / mark_bytes / replace_markers are read as the doc says: they overwrite the markers of the bytes (letters) of self, \\
+         i.e. they are applied to every letter of the expression; an expression in which this puts a marked letter under a \\
+         complement is outside the contract and is not product-checked; that the library does not refuse such expressions is \\
+         checked separately (group mark-over-complement)",
+    );
+    cx.note("not covered: ParserGadget (fetch_bytes, ascii_to_int, date_to_int) and data_types.rs are anchors of the property but not part of its statement");
     cx.states = cx.counter_value("product_states");
     cx.transitions = cx.counter_value("product_transitions");
-    let _ = Tier::Quick;
+    cx.traces_validated = cx.counter_value("traces_validated");
+    let checked = cx.counter_value("expressions_checked");
+    cx.extra("expressions_checked", json!(checked));
+    cx.extra("expressions_skipped_non_output_deterministic", json!(cx.counter_value("expressions_skipped_non_output_deterministic")));
+    cx.extra(
+        "expressions_ill_formed_not_built",
+        json!(cx.class_count("product:ill-formed(marker under complement)") + cx.class_count("product:ill-formed(mark applied over a complement)")),
+    );
+    cx.require(cx.counter_value("reference_capped") == 0, "the derivative closure must stay below the state cap");
+    cx.require(checked > 5_000, "thousands of expressions must be product-checked");
+    cx.require(cx.class_count("product:equal") > 5_000, "most expressions must agree with the reference");
+    cx.require(cx.class_count("parse:accepted-word:sat") > 100 && (cx.class_count("parse:rejected-word:unsat") + cx.class_count("parse:rejected-word:synth-err")) > 100, "both accepted and rejected words must be replayed in-circuit");
+    cx.require(cx.class_count("parse:lookup-table:equals-automaton") > 50 && cx.class_count("parse:lookup-table:not-readable") == 0, "the circuit's lookup table must be compared with the automaton");
+    cx.require(cx.class_count("parse:fault:unsat") + cx.class_count("parse:fault:synth-err") > 100, "faults must be injected and rejected");
+    cx.require(
+        cx.class_count("base64-fixed:honest:sat") > 300 && cx.class_count("base64-fixed:honest:unsat") + cx.class_count("base64-fixed:honest:crash-unsat") > 100,
+        "base64: both well-formed and malformed inputs",
+    );
+    cx.require(cx.class_count("base64-var:bound-to-reference:sat") > 50 && cx.class_count("base64-var:bound-to-wrong-result:unsat") > 50, "base64 (variable length): results must be bound");
     cx.finish()
 }
